@@ -961,6 +961,8 @@ func Cluster(eco string, r *rand.Rand) []string {
 		return 0
 	})
 	bump(len(c)-1, func(n int64) int64 { return n*10 + 1 })
+	bump(i, func(n int64) int64 { return n * 10 })  // 1.1 / 1.10 / 1.100: trailing zero DIGITS are not trailing zero COMPONENTS
+	bump(i, func(n int64) int64 { return n * 100 }) // (cut-set trimming, "strip .0" helpers)
 	if len(c) < ar[1] {
 		out = append(out, base+".0", base+".1")
 	}
@@ -1125,6 +1127,30 @@ func Cluster(eco string, r *rand.Rand) []string {
 		for k := 0; k < 10; k++ {
 			out = append(out, heads[r.IntN(len(heads))]+" "+words[r.IntN(len(words))]+" "+out[r.IntN(min(len(out), 20))])
 		}
+	}
+	// literals of this ecosystem's sources that the baseline dictionary does not have (a later change introduced them):
+	// glued after / before / between members, with and without the usual separators
+	if nl := newLits[eco]; len(nl) > 0 {
+		for k := 0; k < 10; k++ {
+			l := nl[r.IntN(len(nl))]
+			m := out[r.IntN(min(len(out), 16))]
+			switch r.IntN(5) {
+			case 0:
+				out = append(out, m+l)
+			case 1:
+				out = append(out, l+m)
+			case 2:
+				out = append(out, m+l+out[r.IntN(min(len(out), 16))])
+			case 3:
+				out = append(out, m+pick(r, "-", ".", "+", "_", "~", "")+l)
+			default:
+				out = append(out, m+l+Num(r, NumOpts{}))
+			}
+		}
+	}
+	// regex-derived family (regexgen.go): strings sampled from the ecosystem's own regular expressions and their relatives
+	if chance(r, 1, 5) || (len(newRegexAST[eco]) > 0 && chance(r, 1, 2)) {
+		out = append(out, RegexFamily(eco, r)...)
 	}
 	// maven: the unique snapshots of this base as a repository lists them, next to the literal -SNAPSHOT
 	if eco == "maven" && chance(r, 1, 5) {
